@@ -1,9 +1,11 @@
 import ArrProofs.Lemmas.C01Machine
+import ArrProofs.Lemmas.C01Ext
 /-!
 # C01 — shape and element count never disagree on any result of any operation chain
 
-Property theorems only (helpers: `ArrProofs/Lemmas/C01Basic|Core|Struct|Ops|Num|Machine.lean`, one `op_wf` lemma per
-modelled operation).  Model under test: `ArrModel/C01.lean` — the small-step store machine whose operations are the
+Property theorems only (helpers: `ArrProofs/Lemmas/C01Basic|Core|Struct|Ops|Num|Machine|Ext.lean`, one `op_wf` lemma per
+modelled operation; `C01Ext`: `slice`, `indices_at`, every arm of `dot`, `clip` with a missing bound, the string-array
+operations).  Model under test: `ArrModel/C01.lean` — the small-step store machine whose operations are the
 very definitions of `ArrModel/*.lean` (axis permutations, reshaping, broadcasting, splitting/joining, reorder,
 delete/insert/append/repeat/trim, closures, reductions/scans/sorting, elementwise math patterns, products,
 constructors, bit packing, operator overloads).
@@ -195,12 +197,7 @@ theorem eval_wf (s : Store) (hs : StoreWF s) (op : Op) : ValWF (eval s op) := by
   | outer a b => exact with2_wf hs fun a b ha hb => ofRes_wf fun r h => c14_outer_wf a b ha hb h
   | inner a b => exact with2_wf hs fun a b ha hb => ofRes_wf fun r h => c14_inner_wf a b ha hb h
   | matmul a b => exact with2_wf hs fun a b ha hb => ofRes_wf fun r h => c14_matmul_wf a b ha hb h
-  | dot a b =>
-    refine with2_wf hs fun a b ha hb => ?_
-    split
-    · rename_i r hr
-      exact ofRes_wf fun r' h => c14_dot_wf a b ha hb (by rw [hr, h])
-    · trivial
+  | dot a b => exact with2_wf hs fun a b ha hb => ofRes_wf fun r h => c01x_dotFull_wf a b ha hb h
   | unpackBits a axis count order =>
     exact with1_wf hs fun a ha => ofRes_map_wf ofNatArr_wf fun r h =>
       c19_unpackBits_pipe_wf _ axis count _ (toNatArr_wf ha) h
@@ -208,6 +205,31 @@ theorem eval_wf (s : Store) (hs : StoreWF s) (op : Op) : ValWF (eval s op) := by
     exact with1_wf hs fun a ha => ofRes_map_wf ofNatArr_wf fun r h =>
       c19_packBits_pipe_wf _ axis _ (toNatArr_wf ha) h
   | operator k a b => exact with2_wf hs fun a b ha hb => ofRes_wf fun r h => opKind_wf k a b ha hb h
+  | slice a start stop => exact with1_wf hs fun a ha => ofRes_wf fun r h => c01x_slice_wf a start stop ha h
+  | indicesAt a indices => exact with1_wf hs fun a ha => ofRes_wf fun r h => c01x_indicesAt_wf a indices ha h
+  | filterMapNonzero a => exact with1_wf hs fun a ha => ofRes_wf fun r h => iter_filterMap_wf a _ ha h
+  | clipOpt a lo hi =>
+    refine with1_wf hs fun a ha => ?_
+    split
+    · rename_i lo' hi' hlo hhi
+      exact ofRes_wf fun r h => c01x_clipOpt_wf a ha lo' hi' (getOpt_wf hs hlo) (getOpt_wf hs hhi) h
+    · trivial
+  | strUnary a => exact with1_wf hs fun a _ => ofRes_map_wf blankArr_wf fun r h => c01x_strUnary_wf _ h
+  | strBinary a b => exact with2_wf hs fun a b _ _ => ofRes_map_wf blankArr_wf fun r h => c01x_strBinary_wf _ _ _ h
+  | strStrip a c => exact with2_wf hs fun a c _ _ => ofRes_map_wf blankArr_wf fun r h => c01x_strStrip_wf _ _ _ h
+  | strCompare a b op =>
+    exact with2_wf hs fun a b _ _ => ofRes_map_wf blankArr_wf fun r h => c01x_strCompare_wf _ _ _ _ h
+  | strMultiply a n => exact with2_wf hs fun a n _ _ => ofRes_map_wf blankArr_wf fun r h => c01x_strMultiply_wf _ _ _ h
+  | strSplitlines a keep =>
+    exact with1_wf hs fun a _ => ofRes_map_wf blankArr_wf fun r h => c01x_strSplitlines_wf _ _ _ h
+  | strPad a w fill => exact with2_wf hs fun a w _ _ => ofRes_map_wf blankArr_wf fun r h => c01x_strPad_wf _ _ _ _ h
+  | strSplit a sep m =>
+    refine with1_wf hs fun a _ => ?_
+    split
+    · exact ofRes_wf fun r h => c01x_strSplit_wf a _ m h
+    · trivial
+  | strReplace a o n cnt =>
+    exact with3_wf hs fun a o n _ _ _ => ofRes_map_wf blankArr_wf fun r h => c01x_strReplace_wf _ _ _ _ _ h
   | extern e => exact ext_wf e
 
 /-- one step keeps the invariant (earlier entries are never touched, the new entry is consistent) -/
